@@ -127,6 +127,7 @@ pub open spec fn pp_val(s: Seq<u8>) -> Seq<u8> { item_raw(pp_rest(s), parse_hdr(
 pub open spec fn pp_tail(s: Seq<u8>) -> Seq<u8> { after(pp_rest(s), item_total(pp_rest(s))) }
 
 /// bytes side of one accepted decoder step: canonical key string, one well-typed value item, then the tail
+#[verifier::spinoff_prover]
 pub proof fn lemma_reencode_step_bytes(s: Seq<u8>, prev: Option<Seq<u8>>, acc: Map<Seq<u8>, Seq<u8>>)
     requires s.len() > 0, parse_pairs(s, prev, acc) is Some,
     ensures
@@ -192,6 +193,7 @@ pub proof fn lemma_reencode_step_map(acc: Map<Seq<u8>, Seq<u8>>, ks: Seq<Seq<u8>
 }
 
 /// accumulator form of the re-encoding lemma
+#[verifier::spinoff_prover]
 pub proof fn lemma_parse_pairs_reencode_acc(s: Seq<u8>, prev: Option<Seq<u8>>, acc: Map<Seq<u8>, Seq<u8>>, ks: Seq<Seq<u8>>, m: Map<Seq<u8>, Seq<u8>>)
     requires
         is_key_enum(acc.dom(), ks),
@@ -277,6 +279,7 @@ pub proof fn lemma_reencode_uint(p2: Seq<u8>)
 }
 
 /// what the record oracle accepts re-encodes to exactly the accepted item (canonical uniqueness of the encoding)
+#[verifier::spinoff_prover]
 pub proof fn lemma_record_parse_reencode(item: Seq<u8>)
     requires
         parse_record_struct(item) is Some,
